@@ -584,6 +584,8 @@ def oracle_c02(sc, res):
             # lenient: skipped iff its source was exited earlier in this step by another winner
             if t.source.id in exited_before:
                 continue
+            if ek != "plain" or etype.startswith("done.state."):
+                continue  # a notification of an exited activation is discarded (C08/C09/C10 judge those)
             vios.append(Violation("C02", "nominated-not-fired", sig_base,
                                   f"event {etype} in {sorted(cfg_at)} ctx={ctx_at}: nominated {nom_ids}, fired {fired_ids}; {t.tid} missing though its source {t.source.id} was not exited"))
             return vios
@@ -1102,4 +1104,561 @@ def stats_c10(sc, res):
             s["top_level_done"] += 1
         elif r[K] == "op-call" and r[5] == "send" and r[8] == "done":
             s["sends_after_done"] += 1
+    return s
+
+
+# ===========================================================================
+# C11 - history
+# ===========================================================================
+
+def oracle_c11(sc, res):
+    w = Walk(sc, res)
+    m = w.model
+    vios = []
+    if w.aborted():
+        return vios
+    root = w.iid
+    start_ret = w.ops_ret.get(0)
+    if start_ret is None or (isinstance(start_ret[6], tuple) and start_ret[6][0] == "exc"):
+        return vios
+    owners = {n.id for n in m.by_id.values() if any(c.kind == "history" for c in n.children)}
+    cfg = set()
+    recorded = {}
+    seg_pre = None      # configuration before the first exit of the current transition
+    seg_entries = []
+    restored = False
+    for r in res.trace:
+        k = r[K]
+        if k == "op-ret" and r[5] == "restore":
+            restored = True
+            cfg = None  # unknown until the next observation
+            continue
+        if k == "obs" and r[5] == root and cfg is None:
+            cfg = set(r[6]["cfg"])
+            continue
+        if cfg is None:
+            continue
+        if k == "recv" and r[4] == root:
+            seg_pre = None
+            seg_entries = []
+        elif k == "act" and r[4] == root and r[5].startswith(("en.", "ex.")):
+            sid = r[5][3:]
+            if r[5].startswith("ex."):
+                if seg_entries:
+                    # exits always precede entries inside one transition: this is a new transition
+                    # (e.g. the first always-transition right after the initial entry)
+                    seg_pre = None
+                    seg_entries = []
+                if seg_pre is None:
+                    seg_pre = set(cfg)
+                if sid in owners:
+                    n = m.node(sid)
+                    recorded[sid] = {d for d in seg_pre if d != sid and m.node(d) is not None and m.node(d).is_descendant_of(n)}
+                cfg.discard(sid)
+            else:
+                if seg_pre is None:
+                    seg_pre = set(cfg)
+                cfg.add(sid)
+                seg_entries.append(sid)
+        elif k == "trans" and r[4] == root:
+            t = m.trans.get(r[5])
+            pre = seg_pre if seg_pre is not None else set(cfg)
+            entries = seg_entries
+            seg_pre = None
+            seg_entries = []
+            if t is None or t.target is None or t.target.kind != "history":
+                continue
+            h = t.target
+            P = h.parent
+            if t.source.is_descendant_of(P, strict=False) or P.id in pre:
+                continue  # outside the property's scope (source inside the parent / parent still active)
+            rec = recorded.get(P.id)
+            if not rec:
+                mode = "default"
+                if h.hist_default is not None:
+                    D = h.hist_default
+                    exp = set()
+                    # enter D normally; a parallel parent also enters its other regions
+                    chain = [D] + [a for a in D.ancestors() if a.is_descendant_of(P)]
+                    for x in chain:
+                        exp.add(x.id)
+                    for x in m.descend(D):
+                        exp.add(x.id)
+                    cur = D
+                    while cur is not None and cur is not P:
+                        par = cur.parent
+                        if par is not None and par.kind == "parallel" and (par is P or par.is_descendant_of(P)):
+                            for reg in par.regions():
+                                if reg is not cur:
+                                    for x in m.descend(reg):
+                                        exp.add(x.id)
+                        cur = par
+                else:
+                    exp = {x.id for x in m.descend(P)} - {P.id}
+            elif h.history == "deep":
+                mode = "deep"
+                exp = set(rec)
+            else:
+                mode = "shallow"
+                exp = set()
+                for cid in rec:
+                    c = m.node(cid)
+                    if c is not None and c.parent is P:
+                        for x in m.descend(c):
+                            exp.add(x.id)
+            actual = {i for i in r[10] if m.node(i) is not None and m.node(i).is_descendant_of(P)}
+            sig = {"engine": sc["engine"], "mode": mode, "history": h.history, "parent_kind": P.kind, "after_restore": restored}
+            if actual != exp:
+                vios.append(Violation("C11", "history-restore-mismatch", sig,
+                                      f"{t.tid} -> {h.id}: expected under {P.id} {sorted(exp)}, got {sorted(actual)} (recorded {sorted(rec) if rec else None})"))
+                continue
+            under = [e for e in entries if m.node(e) is not None and m.node(e).is_descendant_of(P, strict=False)]
+            dup = sorted({e for e in under if under.count(e) > 1})
+            if dup:
+                vios.append(Violation("C11", "restored-state-entered-twice", sig, f"{t.tid} -> {h.id}: entered more than once: {dup}"))
+            missing = sorted((exp | {P.id}) - set(under))
+            if missing:
+                vios.append(Violation("C11", "restored-state-not-entered", sig, f"{t.tid} -> {h.id}: active but no entry action ran for {missing}"))
+    return vios
+
+
+def stats_c11(sc, res):
+    s = {"history_transitions": 0, "restores": 0}
+    m = Model(sc["machine"])
+    for r in res.trace:
+        if r[K] == "trans":
+            t = m.trans.get(r[5])
+            if t is not None and t.target is not None and t.target.kind == "history":
+                s["history_transitions"] += 1
+        elif r[K] == "op-ret" and r[5] == "restore":
+            s["restores"] += 1
+    return s
+
+
+# ===========================================================================
+# C16 - determinism (multi-execution runner)
+# ===========================================================================
+
+def normalise_trace(trace):
+    """Projection compared across executions: what happened, in which order (no seq / time / worker)."""
+    out = []
+    for r in trace:
+        k = r[K]
+        if k in ("act", "recv", "guard", "gcall", "ucall", "actx", "svc-call", "svc-end", "sub", "emit", "fault"):
+            out.append((k,) + tuple(r[4:]))
+        elif k == "trans":
+            out.append((k,) + tuple(r[4:8]) + (r[10],))
+        elif k == "obs":
+            o = r[6]
+            out.append((k, r[4], o["cfg"], repr(o["ctx"]), o["status"], repr(o["output"]), tuple(sorted(o["history"].items()))))
+        elif k == "pure":
+            out.append((k,) + tuple(repr(x) for x in r[4:]))
+    return out
+
+
+def run_c16(sc):
+    from .execs import execute
+    import copy as _copy
+    variants = [("salt", sc.get("salt", 0)), ("salt", sc.get("salt", 0) * 31 + 7), ("salt", sc.get("salt", 0) * 131 + 1013),
+                ("salt", 999983 - sc.get("salt", 0)), ("address", 0), ("address", 4000 + sc.get("seed", 0) % 3000)]
+    results = []
+    base = None
+    vios = []
+    m = Model(sc["machine"])
+    for mode, val in variants:
+        s2 = _copy.deepcopy(sc)
+        if mode == "salt":
+            s2["salt"] = val
+            s2["hash_mode"] = "salted"
+        else:
+            s2["hash_mode"] = "address"
+            s2["heap_garbage"] = val
+        res = execute(s2)
+        results.append(res)
+        if res.meta.get("harness_error"):
+            return results, []
+        if res.meta.get("abort"):
+            return results, []
+        norm = normalise_trace(res.trace)
+        if base is None:
+            base = norm
+            continue
+        if norm != base and not vios:
+            i = 0
+            while i < min(len(norm), len(base)) and norm[i] == base[i]:
+                i += 1
+            a = base[i] if i < len(base) else None
+            b = norm[i] if i < len(norm) else None
+            # structural facts about the last transition before the divergence
+            hist = False
+            par = False
+            for x in reversed(base[:i + 1]):
+                if x[0] == "trans":
+                    t = m.trans.get(x[2])
+                    if t is not None and t.target is not None:
+                        hist = t.target.kind == "history"
+                    break
+            kind = (a or b)[0]
+            names = sorted([str((a or ("",) * 3)[2]), str((b or ("",) * 3)[2])])
+            role = "entry" if all(n.startswith("en.") for n in names) else ("exit" if all(n.startswith("ex.") for n in names) else "other")
+            vios.append(Violation("C16", "nondeterministic-trace",
+                                  {"engine": sc["engine"], "record": kind, "role": role},
+                                  f"execution under {mode}={val} diverges from the first at record {i}: {a} vs {b}",
+                                  detail={"variant": [mode, val]}))
+    return results, vios
+
+
+# ===========================================================================
+# C05 - engine equivalence (multi-execution runner)
+# ===========================================================================
+
+def _norm_ev(etype):
+    if etype is None:
+        return None
+    s = str(etype)
+    if s in _SYNTH or s.startswith(("entry.", "exit.")):
+        return None
+    return s
+
+
+def _per_op(res, root):
+    """op index -> dict(acts=[(name, ev, tag)], actx=[type], obs=obs or None, ret=...)."""
+    out = {}
+    cur = None
+    for r in res.trace:
+        k = r[K]
+        if k == "op-call":
+            cur = out.setdefault(r[4], {"acts": [], "actx": [], "obs": None, "ret": None, "ucalls": []})
+        elif k == "op-ret":
+            out.setdefault(r[4], {"acts": [], "actx": [], "obs": None, "ret": None, "ucalls": []})["ret"] = r[6]
+        elif cur is not None:
+            if k == "act" and r[4] == root:
+                cur["acts"].append((r[5], _norm_ev(r[6]), r[7]))
+            elif k == "actx" and r[4] == root:
+                cur["actx"].append(r[5])
+            elif k == "ucall":
+                cur["ucalls"].append(tuple(r[4:6]))
+            elif k == "obs" and r[5] == root and str(r[4]).startswith("after-op"):
+                i = int(str(r[4])[len("after-op"):])
+                if i in out:
+                    out[i]["obs"] = r[6]
+    return out
+
+
+def run_c05(sc):
+    from .execs import execute
+    import copy as _copy
+    root = sc["machine"]["id"]
+    legs = sc.get("legs") or ["sync", "async", "pure"]
+    results = {}
+    vios = []
+    for leg in legs:
+        s2 = _copy.deepcopy(sc)
+        s2["engine"] = leg
+        if leg == "async2":
+            s2["engine"] = "async"
+            # a different schedule: every op from another client task, with an idle client in between
+            ops = []
+            for i, op in enumerate(s2["ops"]):
+                op = dict(op)
+                if op["op"] in ("send", "start"):
+                    op["client"] = i % 3
+                ops.append(op)
+            s2["ops"] = ops
+            s2["sched"] = dict(s2.get("sched") or {}, tie_seed=(s2.get("sched") or {}).get("tie_seed", 0) + 17)
+        res = execute(s2)
+        results[leg] = res
+        if res.meta.get("harness_error") or res.meta.get("abort"):
+            return list(results.values()), []
+    # a run that hit one of the maxIterations bounds is not compared: what happens at the cut is C13's business
+    for r in results.values():
+        if any(x[K] == "log" and "Exceeded" in (x[7] or "") for x in r.trace):
+            return list(results.values()), []
+    flags = {"uses_history": bool(sc.get("uses_history")), "uses_raise": bool(sc.get("uses_raise")),
+             "uses_nested_actions": bool(sc.get("uses_nested")), "uses_invoke": bool(sc.get("uses_invoke"))}
+    per = {leg: _per_op(r, root) for leg, r in results.items() if leg != "pure"}
+    ref_leg = "sync" if "sync" in per else legs[0]
+    ref = per[ref_leg]
+    for leg, p in per.items():
+        if leg == ref_leg:
+            continue
+        for i in sorted(ref):
+            a, b = ref[i], p.get(i)
+            if b is None:
+                continue
+            if (a["ret"] == "ok") != (b["ret"] == "ok"):
+                # the sync engine raises configuration errors out of send(); the async engine logs them
+                continue
+            if a["obs"] is not None and b["obs"] is not None:
+                for key in ("cfg", "ctx", "status", "output"):
+                    if a["obs"][key] != b["obs"][key]:
+                        vios.append(Violation("C05", "engines-disagree", {"legs": f"{ref_leg}/{leg}", "field": key, "uses_invoke": flags["uses_invoke"]},
+                                              f"after op {i} ({sc['ops'][i]}): {ref_leg} {key}={a['obs'][key]!r} vs {leg} {key}={b['obs'][key]!r}"))
+                        return list(results.values()), vios
+            if a["acts"] != b["acts"]:
+                j = 0
+                while j < min(len(a["acts"]), len(b["acts"])) and a["acts"][j] == b["acts"][j]:
+                    j += 1
+                x = a["acts"][j] if j < len(a["acts"]) else None
+                y = b["acts"][j] if j < len(b["acts"]) else None
+                same_names = [q[0] for q in a["acts"]] == [q[0] for q in b["acts"]]
+                same_set = sorted(map(repr, a["acts"])) == sorted(map(repr, b["acts"]))
+                vios.append(Violation("C05", "action-trace-differs",
+                                      {"legs": f"{ref_leg}/{leg}", "same_names": same_names, "same_multiset": same_set,
+                                       "uses_invoke": flags["uses_invoke"],
+                                       "entry_order": bool(x and y and x[0].startswith("en.") and y[0].startswith("en."))},
+                                      f"after op {i} ({sc['ops'][i]}): action #{j} {ref_leg}={x} vs {leg}={y}"))
+                return list(results.values()), vios
+    if "pure" in results:
+        pr = results["pure"]
+        if pr.meta.get("user_calls"):
+            vios.append(Violation("C05", "pure-ran-user-action", {}, f"pure API invoked {pr.meta['user_calls']} generated action callables"))
+        if pr.meta.get("threads"):
+            vios.append(Violation("C05", "pure-started-thread", {}, f"pure API started {pr.meta['threads']} threads"))
+        pure_recs = {r[4]: r for r in pr.trace if r[K] == "pure"}
+        for r in pr.trace:
+            if r[K] == "pure-input-mutated":
+                vios.append(Violation("C05", "pure-mutated-input-snapshot", {}, f"transition() changed the snapshot passed in (op {r[4]})"))
+        for i in sorted(ref):
+            a = ref[i]
+            pr_i = pure_recs.get(i)
+            if pr_i is None or a["obs"] is None or a["ret"] != "ok":
+                continue
+            cfg, ctx, status, output, names = pr_i[6], pr_i[7], pr_i[8], pr_i[9], pr_i[10]
+            status = "running" if status == "active" else status
+            for key, pv in (("cfg", tuple(cfg)), ("ctx", ctx), ("status", status), ("output", output)):
+                if a["obs"][key] != pv:
+                    vios.append(Violation("C05", "pure-disagrees", dict(flags, field=key),
+                                          f"after op {i} ({sc['ops'][i]}): {ref_leg} {key}={a['obs'][key]!r} vs pure {key}={pv!r}"))
+                    return list(results.values()), vios
+            if list(names) != list(a["actx"]):
+                vios.append(Violation("C05", "pure-action-list-differs", dict(flags),
+                                      f"after op {i}: {ref_leg} executed {a['actx']} but transition() reported {list(names)}"))
+                return list(results.values()), vios
+    return list(results.values()), vios
+
+
+# ===========================================================================
+# C06 - guards gate exactly (composites, stateIn, cond, raise=false, missing=error)
+# ===========================================================================
+MISSING_NAMES = ("g_missing1", "g_missing2")
+
+
+def _guard_mentions_missing(g):
+    if g is None:
+        return False
+    if isinstance(g, str):
+        return g in MISSING_NAMES
+    if g.get("type") in MISSING_NAMES:
+        return True
+    kids = list(g.get("children") or [])
+    p = g.get("params")
+    if isinstance(p, dict):
+        kids += list(p.get("guards") or []) + list(p.get("children") or [])
+        if p.get("guard") is not None:
+            kids.append(p["guard"])
+    return any(_guard_mentions_missing(k) for k in kids)
+
+
+def ref_guard_assign(sc, gcfg, ctx, cfg_ids, assign):
+    """Reference value with the missing atoms fixed by `assign` (name -> bool)."""
+    from .model import eval_guard
+
+    def atom(name, params):
+        if name in MISSING_NAMES:
+            return assign.get(name, False)
+        p = params
+        if isinstance(p, dict) and "$fn" in p:
+            fs = p["$fn"]
+            p = fs.get("v") if fs.get("k") == "const" else None
+        return guard_atom_value(sc, name, p, ctx)
+
+    def state_in(target):
+        t = target[1:] if target.startswith("#") else target
+        return any(i == t or i.endswith("." + t) for i in cfg_ids)
+    return eval_guard(gcfg, atom, state_in)
+
+
+def _find_choose_and_enq(cfg, chooses, enqs):
+    if isinstance(cfg, dict):
+        if cfg.get("type") == "xstate.choose":
+            conds = (cfg.get("params") or {}).get("conditions") or []
+            for bi, c in enumerate(conds):
+                acts = c.get("actions") or []
+                if acts and isinstance(acts[0], str) and acts[0].startswith("ch."):
+                    cid = acts[0].split(".")[1]
+                    chooses[cid] = conds
+                    break
+        if "$fn" in cfg and isinstance(cfg["$fn"], dict) and cfg["$fn"].get("k") == "enq":
+            enqs[cfg["$fn"].get("name")] = cfg["$fn"].get("checks") or []
+        for v in cfg.values():
+            _find_choose_and_enq(v, chooses, enqs)
+    elif isinstance(cfg, list):
+        for v in cfg:
+            _find_choose_and_enq(v, chooses, enqs)
+
+
+def oracle_c06(sc, res):
+    import itertools
+    w = Walk(sc, res)
+    m = w.model
+    vios = []
+    start_ret = w.ops_ret.get(0)
+    if start_ret is None or w.aborted():
+        return vios
+    if isinstance(start_ret[6], tuple) and start_ret[6][0] == "exc":
+        # start() may itself hit a missing guard (an always-transition): reported as a library error
+        if start_ret[6][1] != "ImplementationMissingError":
+            pass
+        return vios
+    root = m.root.id
+    chooses, enqs = {}, {}
+    _find_choose_and_enq(sc["machine"], chooses, enqs)
+    ctx = dict(sc["machine"].get("context") or {})
+    cfg = set()
+    steps = []
+    cur = None
+    cur_op = None
+    op_err = {}
+    for r in res.trace:
+        k = r[K]
+        if k == "act" and r[4] == root:
+            nm = r[5]
+            if nm.startswith("en."):
+                cfg.add(nm[3:])
+            elif nm.startswith("ex."):
+                cfg.discard(nm[3:])
+            elif nm.startswith("ch."):
+                _p, cid, bi = nm.split(".")
+                conds = chooses.get(cid)
+                if conds is not None:
+                    exp = None
+                    skip = False
+                    for j, c in enumerate(conds):
+                        g = c.get("guard", c.get("cond"))
+                        if _guard_mentions_missing(g):
+                            skip = True
+                            break
+                        if g is None or ref_guard_assign(sc, g, ctx, cfg, {}):
+                            exp = j
+                            break
+                    if not skip and exp is not None and exp != int(bi):
+                        vios.append(Violation("C06", "choose-wrong-branch", {"engine": sc["engine"]},
+                                              f"choose #{cid}: branch {bi} ran, reference says branch {exp} (ctx {ctx}, cfg {sorted(cfg)}); guards {[c.get('guard', c.get('cond')) for c in conds]}"))
+                        return vios
+        if k == "ucall" and r[4] == "enq-check":
+            checks = enqs.get(r[5])
+            if checks is not None and r[6] < len(checks):
+                g = checks[r[6]][0]
+                if not _guard_mentions_missing(g) and isinstance(r[7], bool):
+                    exp = ref_guard_assign(sc, g, ctx, cfg, {})
+                    if exp != r[7]:
+                        vios.append(Violation("C06", "enqueue-check-wrong", {"engine": sc["engine"]},
+                                              f"enqueueActions check({g}) returned {r[7]}, reference {exp} (ctx {ctx}, cfg {sorted(cfg)})"))
+                        return vios
+        if k in ("act", "ucall"):
+            if k == "ucall" or r[4] == root:
+                apply_effects(ctx, sc, r)
+        if k == "op-call":
+            cur_op = r[4]
+        if k == "op-ret" and isinstance(r[6], tuple) and r[6][0] == "exc":
+            op_err[r[4]] = r[6]
+        if k == "recv" and r[4] == root:
+            cur = {"rv": r, "cfg": set(cfg), "ctx": dict(ctx), "recs": [], "op": cur_op, "err_log": False}
+            steps.append(cur)
+        elif cur is not None:
+            if k == "trans" and r[4] == root:
+                cur["recs"].append(r)
+            elif k == "act" and r[4] == root and r[5].startswith("ex."):
+                cur["recs"].append(r)
+            elif k == "log" and r[6] == "ImplementationMissingError" and "Error processing event" in (r[7] or ""):
+                cur["err_log"] = True
+            elif k == "op-ret":
+                if isinstance(r[6], tuple) and r[6][0] == "exc" and r[6][1] == "ImplementationMissingError":
+                    cur["err_log"] = True
+                cur = None
+    for st in steps:
+        rv, cfg_at, ctx_at = st["rv"], st["cfg"], st["ctx"]
+        etype = rv[5]
+        ek, src = _event_kind(etype)
+        # which missing atoms could matter in this pass (event candidates and eventless candidates on every chain)
+        considered = []
+        for leaf in m.leaves(cfg_at):
+            n = leaf
+            while n is not None:
+                cands, _b = m.candidates(n, etype, ek, src)
+                considered += cands + list(n.always)
+                n = n.parent
+        names = sorted({nm for t in considered for nm in MISSING_NAMES if _guard_mentions_missing(t.guard) and nm in repr(t.guard)})
+        outcomes = set()
+        for vals in itertools.product((False, True), repeat=len(names)):
+            assign = dict(zip(names, vals))
+            noms = m.nominate(cfg_at, etype, lambda t: ref_guard_assign(sc, t.guard, ctx_at, cfg_at, assign), ek, src)
+            always_en = bool(m.nominate(cfg_at, "", lambda t: ref_guard_assign(sc, t.guard, ctx_at, cfg_at, assign))) if etype != "" else False
+            outcomes.add((tuple(t.tid for t in noms), always_en))
+        fired = []
+        exited = set()
+        for r in st["recs"]:
+            if r[K] == "act":
+                exited.add(r[5][3:])
+            elif r[K] == "trans":
+                t = m.trans.get(r[5])
+                if t is not None and t.event == etype and etype != "":
+                    fired.append(t)
+        fired_ids = [t.tid for t in fired]
+        sig = {"engine": sc["engine"], "missing_involved": bool(names)}
+        if st["err_log"]:
+            if not names:
+                vios.append(Violation("C06", "missing-error-without-missing-guard", sig,
+                                      f"event {etype}: ImplementationMissingError reported but no candidate guard names a missing implementation"))
+                return vios
+            if fired_ids:
+                vios.append(Violation("C06", "transition-after-missing-guard-error", sig,
+                                      f"event {etype}: ImplementationMissingError reported and yet {fired_ids} fired"))
+                return vios
+            continue
+        if any(ae for _n, ae in outcomes):
+            continue  # an enabled eventless candidate competes in this pass (see C02 leniency)
+        nomsets = {n for n, _ae in outcomes}
+        if len(nomsets) > 1:
+            vios.append(Violation("C06", "missing-guard-decided-silently", sig,
+                                  f"event {etype} in {sorted(cfg_at)} ctx={ctx_at}: outcome depends on unimplemented guard(s) {names} "
+                                  f"(possible nominations {sorted(nomsets)}) but no ImplementationMissingError was reported; fired {fired_ids}"))
+            return vios
+        nom_ids = list(next(iter(nomsets)))
+        for t in fired:
+            if t.tid not in nom_ids:
+                vios.append(Violation("C06", "guarded-transition-fired", dict(sig, guard_kind=type(t.guard).__name__),
+                                      f"event {etype} in {sorted(cfg_at)} ctx={ctx_at}: {t.tid} (guard {t.guard}) fired; reference nomination {nom_ids}"))
+                return vios
+        for tid in nom_ids:
+            if tid in fired_ids:
+                continue
+            t = m.trans[tid]
+            if t.source.id in exited:
+                continue
+            if ek != "plain" or etype.startswith("done.state."):
+                continue  # a notification of an exited activation is discarded (C08/C09/C10 judge those)
+            vios.append(Violation("C06", "enabled-transition-not-fired", dict(sig, guard_kind=type(t.guard).__name__),
+                                  f"event {etype} in {sorted(cfg_at)} ctx={ctx_at}: reference nominates {nom_ids} but fired {fired_ids}; {tid} guard {t.guard}"))
+            return vios
+    return vios
+
+
+def stats_c06(sc, res):
+    s = {"guard_calls": 0, "guard_raised": 0, "missing_errors": 0, "choose_runs": 0, "enq_checks": 0, "statein_in_machine": 0}
+    for r in res.trace:
+        if r[K] == "gcall":
+            s["guard_calls"] += 1
+            if str(r[7]).startswith("raise"):
+                s["guard_raised"] += 1
+        elif r[K] == "log" and r[6] == "ImplementationMissingError":
+            s["missing_errors"] += 1
+        elif r[K] == "op-ret" and isinstance(r[6], tuple) and r[6][0] == "exc" and r[6][1] == "ImplementationMissingError":
+            s["missing_errors"] += 1
+        elif r[K] == "act" and r[5].startswith("ch."):
+            s["choose_runs"] += 1
+        elif r[K] == "ucall" and r[4] == "enq-check":
+            s["enq_checks"] += 1
+    s["statein_in_machine"] = 1 if "stateIn" in repr(sc["machine"]) else 0
     return s
